@@ -351,7 +351,10 @@ def cases(draw):
         kind = draw(st.sampled_from(["clone", "visibility", "visibility", "camel", "extend", "fix"]))
         op = {"op": kind, "on": draw(st.sampled_from([0, 0, 0, 1, 2, 3]))}
         if kind == "visibility":
-            op["hidden"] = {"types": [n for n in type_names if draw(st.integers(0, 11)) == 0],
+            # specified scalars can never be hidden (tests/test_schema/...: test_does_not_hide_specified_scalar): naming one
+            # in the predicate (an allow-list of the application's own types does) changes nothing
+            builtin = draw(st.sampled_from([[], [], [], ["String"], ["Int", "ID"], ["Boolean", "Float", "String", "Int", "ID"]]))
+            op["hidden"] = {"types": [n for n in type_names if draw(st.integers(0, 11)) == 0] + builtin,
                             "fields": [f for f in fields if draw(st.integers(0, 11)) == 0],
                             "input_fields": [f for f in in_fields if draw(st.integers(0, 5)) == 0],
                             "directives": ["cd"] if draw(st.integers(0, 3)) == 0 else []}
